@@ -2,8 +2,7 @@
    Only statements.  Index-level model: Parser/StreamModel.v; it refines the list-level machine of
    Parser/AbsStream.v (StreamRefine.v); the conservation laws are proved there (StreamInv.v) against the
    specification functions of Parser/StreamSpec.v. *)
-From FV Require Import Base.Bytes Gen.Generated Parser.ReqModel Parser.StreamModel Parser.AbsStream Parser.StreamSpec
-  Parser.StreamRefine Parser.StreamInv.
+From FV Require Import Base.Bytes Gen.Generated Parser.ReqModel Parser.StreamModel Parser.AbsStream Parser.StreamSpec Parser.StreamRefine Parser.StreamInv Parser.ReqWire Parser.ReqTargets Parser.StreamFinal.
 
 (* the index-level parser (cursors, copy_within, compress) computes exactly what the list-level machine
    computes, and keeps the buffer bookkeeping invariant (= debug_assert_invars!) *)
@@ -17,7 +16,7 @@ Theorem C02_call : forall maxc, T_content_stmt maxc.
 Proof. exact T_content. Qed.
 
 (* end-of-stream is reported exactly when the parser stands at the terminating header *)
-Theorem C02_stream_end : forall maxc, T_end_stmt maxc.
+Theorem C02_end_flag : forall maxc, T_end_stmt maxc.
 Proof. exact T_end. Qed.
 
 (* every legal schedule of parse(dest=Some/None) / consume_stream / compress / consume_output calls, any
@@ -25,3 +24,204 @@ Proof. exact T_end. Qed.
 Theorem C02_schedule : forall maxc ops a, a_inv a -> sched_legal maxc a ops ->
   step_law maxc a (fed ops) (fst (fst (srun maxc a ops))) (snd (fst (srun maxc a ops))) (snd (srun maxc a ops)).
 Proof. exact schedule_law. Qed.
+
+(* ==== pinned from the proof files (tools/write_props.py) ==== *)
+
+(* the CONCRETE parser (cursors into one buffer), one call under the caller contract, ANY bytes: Ok or Err,
+   never a panic; what it hands over is exactly the front of the specification content K of (fed ++ anything to
+   come); replies R and every later stream's content F are conserved; Status.stream / Status.output count what
+   was appended; the end flag is 'standing at the terminating header'; an error (abort, bad version) is sticky *)
+Theorem C02_call_concrete :
+  forall (maxc : N) (p : sp) (new : bytes) (dest : option N),
+  sp_inv p ->
+  call_legal p new dest ->
+  (exists (p' : sp) (s : status),
+     sparse maxc p new dest = StOk p' s /\
+     call_post maxc p new dest p' s /\
+     s_end s =
+     match stream p with
+     | Some _ =>
+         at_terminator (r_role (sreq p)) (r_id (sreq p)) (stream p) (payload_rem p') 
+           (padding_rem p') (raw_bytes p')
+     | None => true
+     end) \/
+  (exists (p' : sp) (e : perr) (s : status),
+     sparse maxc p new dest = StErr p' e s /\
+     call_post maxc p new dest p' s /\
+     (e = EAbortRequest \/ (exists v : N, e = EUnknownVersion v)) /\
+     (forall (new' : bytes) (dest' : option N),
+      call_legal p' new' dest' ->
+      exists p'' : sp,
+        sparse maxc p' new' dest' = StErr p'' e (first_status p') /\
+        stream_buffer p'' = stream_buffer p' /\
+        output_buffer p'' = output_buffer p' /\ raw_bytes p'' = raw_bytes p' ++ new')).
+Proof. exact sparse_call. Qed.
+
+(* every legal schedule of parse(Some/None) / consume_stream / compress / consume_output on the concrete
+   parser, any chunking: no panic, invariant kept, consumed bytes are a prefix, delivered ++ K(final) =
+   K(initial) etc. *)
+Theorem C02_schedule_concrete :
+  forall (maxc : N) (ops : list cop) (p0 : sp),
+  sp_inv p0 ->
+  csched_legal maxc p0 ops ->
+  let pf := cfinal maxc p0 ops in
+  cno_panic maxc p0 ops /\
+  sp_inv pf /\
+  stream pf = stream p0 /\
+  sreq pf = sreq p0 /\
+  len (buffer pf) = len (buffer p0) /\
+  (exists consumed : list N, raw_bytes p0 ++ cfed ops = consumed ++ raw_bytes pf) /\
+  (forall u : list N,
+   K (abs p0) (cfed ops ++ u) = cdelivered maxc p0 ops ++ K (abs pf) u /\
+   R maxc (abs p0) (cfed ops ++ u) = cemitted maxc p0 ops ++ R maxc (abs pf) u /\
+   (forall sg : N,
+    later_stream (abs p0) sg -> F (Some sg) (abs p0) (cfed ops ++ u) = F (Some sg) (abs pf) u)).
+Proof. exact concrete_schedule. Qed.
+
+(* the stream parser a finished request parser converts into: empty buffers, the role's first stream, the
+   leftover as raw input *)
+Theorem C02_initial_state :
+  forall (rp : parser) (r : req),
+  parser_ok rp ->
+  st rp = Done r ->
+  exists sp0 : sp,
+    into_stream_parser rp = inl sp0 /\
+    sp_inv sp0 /\
+    sreq sp0 = r /\
+    stream sp0 = Header.next_input_stream (r_role r) None /\
+    len (buffer sp0) = cap rp /\
+    stream_buffer sp0 = [] /\
+    output_buffer sp0 = [] /\
+    raw_bytes sp0 = held rp /\
+    payload_rem sp0 = 0 /\
+    padding_rem sp0 = 0 /\
+    abs sp0 =
+    {|
+      a_B := cap rp;
+      a_space := cap rp - len (held rp);
+      a_parsed := [];
+      a_raw := held rp;
+      a_out := [];
+      a_req := r;
+      a_stream := Header.next_input_stream (r_role r) None;
+      a_prem := 0;
+      a_pad := 0;
+      a_st := SSkip
+    |}.
+Proof. exact into_stream_parser_inv. Qed.
+
+(* the specification content, read record by record: the bodies of the active stream's records of this request
+   up to its terminator / an abort, whatever else (management, unknown, foreign-id, other-stream records,
+   padding) lies between *)
+Theorem C02_content_of_records :
+  forall (role id : N) (sg : option N) (rs : list rcd) (t : list N),
+  Forall rcd_ok rs ->
+  sel_ok sg ->
+  CF role id sg false 0 0 (enc_rcds rs ++ t) =
+  content_rcds role id sg rs ++ (if content_open role id sg rs then CF role id sg false 0 0 t else []).
+Proof. exact CF_rcds. Qed.
+
+(* MAIN: a request parsed from the wire, then ANY legal schedule over a wire that continues with records rs
+   (then bytes t): delivered ++ buffered ++ still-to-come = exactly the stream's content, each byte once, in
+   order; all of it once the input is exhausted or the end was reached; at the end the terminator really was in
+   the wire *)
+Theorem C02_delivery :
+  forall (maxc : N) (rp : parser) (r : req) (sp0 : sp) (rs : list rcd) (t : list N) 
+    (ops : list cop) (u : list N),
+  parser_ok rp ->
+  st rp = Done r ->
+  into_stream_parser rp = inl sp0 ->
+  Forall rcd_ok rs ->
+  held rp ++ cfed ops ++ u = enc_rcds rs ++ t ->
+  csched_legal maxc sp0 ops ->
+  let role := r_role r in
+  let id := r_id r in
+  let sg := Header.next_input_stream role None in
+  let pf := cfinal maxc sp0 ops in
+  let whole :=
+    content_rcds role id sg rs ++ (if content_open role id sg rs then CF role id sg false 0 0 t else [])
+    in
+  cno_panic maxc sp0 ops /\
+  sp_inv pf /\
+  stream pf = sg /\
+  sreq pf = r /\
+  cdelivered maxc sp0 ops ++ stream_buffer pf ++ coming pf u = whole /\
+  (raw_bytes pf ++ u = [] \/ stream_at_end pf = true ->
+   cdelivered maxc sp0 ops ++ stream_buffer pf = whole) /\
+  (stream_at_end pf = true ->
+   ended_rcds role id sg rs = true \/ content_open role id sg rs = true /\ EF role id sg 0 0 t = true).
+Proof. exact C02_delivery. Qed.
+
+(* ... and when the wire consists of whole records only *)
+Theorem C02_delivery_exact :
+  forall (maxc : N) (rp : parser) (r : req) (sp0 : sp) (rs : list rcd) (t : list N) 
+    (ops : list cop) (u : list N),
+  parser_ok rp ->
+  st rp = Done r ->
+  into_stream_parser rp = inl sp0 ->
+  Forall rcd_ok rs ->
+  len t < HEADER_LEN ->
+  held rp ++ cfed ops ++ u = enc_rcds rs ++ t ->
+  csched_legal maxc sp0 ops ->
+  let role := r_role r in
+  let id := r_id r in
+  let sg := Header.next_input_stream role None in
+  let pf := cfinal maxc sp0 ops in
+  cno_panic maxc sp0 ops /\
+  sp_inv pf /\
+  cdelivered maxc sp0 ops ++ stream_buffer pf ++ coming pf u = content_rcds role id sg rs /\
+  (raw_bytes pf ++ u = [] \/ stream_at_end pf = true ->
+   cdelivered maxc sp0 ops ++ stream_buffer pf = content_rcds role id sg rs) /\
+  (stream_at_end pf = true -> ended_rcds role id sg rs = true).
+Proof. exact C02_delivery_exact. Qed.
+
+(* Status.stream_end is true exactly when the parser stands at the stream's end; then everything was delivered *)
+Theorem C02_stream_end :
+  forall (maxc : N) (rp : parser) (r : req) (sp0 : sp) (rs : list rcd) (t : list N) 
+    (ops : list cop) (new : list N) (dest : option N) (u : list N) (p' : sp) (s : status),
+  parser_ok rp ->
+  st rp = Done r ->
+  into_stream_parser rp = inl sp0 ->
+  Forall rcd_ok rs ->
+  held rp ++ cfed ops ++ new ++ u = enc_rcds rs ++ t ->
+  csched_legal maxc sp0 ops ->
+  call_legal (cfinal maxc sp0 ops) new dest ->
+  sparse maxc (cfinal maxc sp0 ops) new dest = StOk p' s ->
+  let role := r_role r in
+  let id := r_id r in
+  let sg := Header.next_input_stream role None in
+  let whole :=
+    content_rcds role id sg rs ++ (if content_open role id sg rs then CF role id sg false 0 0 t else [])
+    in
+  sg <> None ->
+  s_end s = stream_at_end p' /\
+  (s_end s = true ->
+   cdelivered maxc sp0 ops ++ s_dest s ++ stream_buffer p' = whole /\
+   (ended_rcds role id sg rs = true \/ content_open role id sg rs = true /\ EF role id sg 0 0 t = true)).
+Proof. exact C02_stream_end. Qed.
+
+(* liveness: once the terminator has been fed, the next parse(None) call reports the end *)
+Theorem C02_end_reported :
+  forall (maxc : N) (rp : parser) (r : req) (sp0 : sp) (rs : list rcd) (t : list N) 
+    (ops : list cop) (new : list N),
+  parser_ok rp ->
+  st rp = Done r ->
+  into_stream_parser rp = inl sp0 ->
+  Forall rcd_ok rs ->
+  held rp ++ cfed ops ++ new = enc_rcds rs ++ t ->
+  csched_legal maxc sp0 ops ->
+  call_legal (cfinal maxc sp0 ops) new None ->
+  let role := r_role r in
+  let id := r_id r in
+  let sg := Header.next_input_stream role None in
+  ended_rcds role id sg rs = true ->
+  exists (p' : sp) (s : status),
+    sparse maxc (cfinal maxc sp0 ops) new None = StOk p' s /\
+    s_end s = true /\
+    stream_at_end p' = true /\
+    s_dest s = [] /\ cdelivered maxc sp0 ops ++ stream_buffer p' = content_rcds role id sg rs.
+Proof. exact C02_end_reported. Qed.
+
+(* non-vacuity: a Filter request, 9 records (Stdin / junk / Data), a 7-operation schedule with 1..n byte chunks *)
+Example C02_example : cdelivered 10 exf_sp0 exf_ops1 ++ stream_buffer (cfinal 10 exf_sp0 exf_ops1) = [97; 98; 99].
+Proof. exact (proj1 exf_C02). Qed.
